@@ -200,6 +200,7 @@ from ..selftest import V  # noqa: E402
 
 S = "pyrepseq/stats.py"
 VARIANTS = [
+    V("variance-in-integer-degree-four", S, "return f2 * (ratio**4 / 4 + ratio**3 + ratio**2 / 2)", "return (f1**4 + 4 * f1**3 * f2 + 2 * f1**2 * f2**2) / (4 * f2**3)", rule="C16-DEP/INTDEG"),
     # regressions of repaired defects (known_findings.json 'fixed')
     V("D7a-var_chao1-coefficients", S, "return f2 * (ratio**4 / 4 + ratio**3 + ratio**2 / 2)",
       "return f2 * ((ratio / 4) ** 4 + ratio**3 + (ratio / 2) ** 2)", rule="C16-RF"),
